@@ -1,0 +1,19 @@
+//go:build verif
+
+// Contracts for the verification machinery in /verif (comment-only; no code).
+// DHT node request handlers: whatever the request holds (negative limits included), no panic.
+
+package kademlia
+
+//@ func (*DHTNode).HandleFindNode
+//@   noframe
+//@   requires n != nil && inv(n.peers)
+//@   ensures ret1 == nil
+//@
+//@ func (*DHTNode).ListNodeInfos
+//@   noframe
+//@   requires node != nil && inv(node.peers)
+//@   ensures true
+//@
+//@ func (*DHTNode).ListNodeInfos$1
+//@   inline
